@@ -68,6 +68,12 @@ class Instance(types.SimpleNamespace):
         return f"<instance of {self._npsym_class[1]}>"
 
 
+class _ValuesIndices(tuple):
+    """result of tensor.max(dim) / tensor.min(dim): a (values, indices) pair that also answers .values / .indices"""
+    values = property(lambda self: self[0])
+    indices = property(lambda self: self[1])
+
+
 class TorchMarker:
     """torch.<something> that carries no value of interest (dtypes, devices)"""
     def __init__(self, name):
@@ -998,6 +1004,12 @@ class _Frame:
             for st_ in base.node.body:
                 if isinstance(st_, ast.Assign) and len(st_.targets) == 1 and isinstance(st_.targets[0], ast.Name) and st_.targets[0].id == a:
                     return _Frame(self.I, base.mod, {}).ev(st_.value)
+            if a == "apply" and f"{base.node.name}.forward" in base.mod.functions:
+                # torch.autograd.Function: apply(*args) evaluates forward(ctx, *args); ctx only records what backward will need
+                fr_ = FuncRef(base.mod, base.mod.functions[f"{base.node.name}.forward"], f"{base.node.name}.forward")
+                ctx_ = types.SimpleNamespace(save_for_backward=lambda frame, *a_, **k_: None, mark_non_differentiable=lambda frame, *a_, **k_: None,
+                                             set_materialize_grads=lambda frame, *a_, **k_: None, needs_input_grad=(False,) * 64)
+                return lambda frame, *a_, **k_: self.I._invoke(fr_, [ctx_] + list(a_), dict(k_))
             raise AnalysisError(f"npsym: attribute `{a}` of class {base.node.name}")
         if isinstance(base, np.ndarray):
             if a == "shape":
@@ -1033,6 +1045,8 @@ class _Frame:
             raise AnalysisError(f"npsym: attribute `{a}` of the symbolic object `{norm(e.value)[:30]}` was not provided by the rule")
         if base is BUILTINS.get("dict") and a == "fromkeys":
             return lambda fr, keys, v=None: dict.fromkeys(list(fr.iterate(keys, None)), v)
+        if isinstance(base, _ValuesIndices) and a in ("values", "indices"):
+            return getattr(base, a)
         if isinstance(base, (list, dict, str, tuple, set)):
             return _BoundMethod(base, a)
         if isinstance(base, self.sp.Basic) or isinstance(base, (int, float)):
@@ -1165,7 +1179,18 @@ class _Frame:
                 return x.copy()
             return I._from_literal(self._plain(x), self._kind(kwargs))
         if n == "arange":
-            vals = [self._int(a) for a in args]
+            try:
+                vals = [self._int(a) for a in args]
+            except AnalysisError:
+                # floating-point arange (start, stop, step) with exact rational arguments: start + k*step for k < ceil((stop - start) / step)
+                q = [sp.nsimplify(sp.sympify(a)) for a in args]
+                if len(q) != 3 or not all(t.is_number for t in q) or q[2] == 0:
+                    raise
+                cnt = max(0, int(sp.ceiling((q[1] - q[0]) / q[2])))
+                out_ = np.empty(cnt, dtype=object)
+                for k_ in range(cnt):
+                    out_[k_] = q[0] + k_ * q[2]
+                return out_
             return np.arange(*vals, dtype=np.int64)
         if n == "eye":
             k = self._kind(kwargs, "obj")
@@ -1216,6 +1241,9 @@ class _Frame:
             return np.einsum(args[0], *[o.astype(object) for o in ops])
         if n in ("matmul", "bmm", "mm"):
             return np.matmul(args[0], args[1])
+        if n in ("linalg.eigh", "symeig", "linalg.eigvalsh"):
+            vals, vecs = self._exact_eigh(I._obj(args[0]), e)
+            return vals if n == "linalg.eigvalsh" else _ValuesIndices((vals, vecs))
         if n in ("linalg.vecdot", "vecdot", "dot", "inner"):
             a_, b_ = I._obj(args[0]), I._obj(args[1])
             return I.osum(a_ * b_, axis=kwargs.get("dim", -1))
@@ -1295,6 +1323,52 @@ class _Frame:
         if n == "get_default_dtype":
             return TorchMarker("torch.float64")
         raise AnalysisError(f"npsym: torch function `{name}` in `{norm(e)[:60]}`")
+
+    def _exact_eigh(self, A, e=None):
+        """exact symmetric eigendecomposition of (batches of) matrices with exact numeric entries: eigenvalues ascending, orthonormal eigenvectors in the columns.
+        Rows / columns that are decoupled from the rest (zero off-diagonal) give unit eigenvectors; the coupled block goes through sympy's exact eigenvects.  Only meant
+        for the small matrices with rational spectrum that rules design; symbolic entries fail closed."""
+        np, sp = self.np, self.sp
+        if A.ndim > 2:
+            res = [self._exact_eigh(A[k], e) for k in range(A.shape[0])]
+            return np.stack([r[0] for r in res]), np.stack([r[1] for r in res])
+        n = A.shape[0]
+        M = [[sp.nsimplify(sp.sympify(A[i, j])) for j in range(n)] for i in range(n)]
+        if any(not x.is_number for row in M for x in row):
+            raise AnalysisError(f"npsym: eigh of a symbolic matrix in `{norm(e)[:50] if e is not None else ''}`")
+        # torch.linalg.eigh(UPLO=...) reads one triangle only; the repository passes symmetric matrices, use the upper triangle
+        for i in range(n):
+            for j in range(i):
+                M[i][j] = M[j][i]
+        iso = [i for i in range(n) if all(M[i][j] == 0 for j in range(n) if j != i)]
+        rest = [i for i in range(n) if i not in iso]
+        pairs = []
+        for i in iso:
+            v = [sp.Integer(0)] * n
+            v[i] = sp.Integer(1)
+            pairs.append((M[i][i], v))
+        if rest:
+            sub = sp.Matrix([[M[i][j] for j in rest] for i in rest])
+            for lam, mult, vs in sub.eigenvects():
+                if not lam.is_real:
+                    raise AnalysisError("npsym: eigh met a non-real eigenvalue (matrix not symmetric)")
+                # orthonormalise inside a degenerate eigenspace
+                vs = sp.GramSchmidt([sp.Matrix(v) for v in vs], True) if len(vs) > 1 else [vs[0] / vs[0].norm()]
+                for v in vs:
+                    full = [sp.Integer(0)] * n
+                    for k, i in enumerate(rest):
+                        full[i] = sp.nsimplify(v[k])
+                    pairs.append((sp.nsimplify(lam), full))
+        if len(pairs) != n:
+            raise AnalysisError("npsym: eigh could not find a complete exact eigenbasis")
+        pairs.sort(key=lambda t: (float(t[0]),))
+        vals = np.empty(n, dtype=object)
+        vecs = np.empty((n, n), dtype=object)
+        for k, (lam, v) in enumerate(pairs):
+            vals[k] = lam
+            for i in range(n):
+                vecs[i, k] = v[i]
+        return vals, vecs
 
     def _numeric_pick(self, a, b, larger, e=None):
         """elementwise maximum / minimum of two broadcast object arrays whose entries are numbers (exact); symbolic entries fail closed"""
@@ -1422,7 +1496,15 @@ class _Frame:
             for idx in np.ndindex(*out.shape):
                 out[idx] = f_(*[sp.sympify(t) for t in moved[idx]])
             if name in ("max", "min"):
-                raise AnalysisError(f"npsym: .{name}(dim) returns (values, indices)")
+                # torch returns (values, indices); indices = first position of the extremum along the axis
+                ind = np.empty(out.shape, dtype=np.int64)
+                for idx in np.ndindex(*out.shape):
+                    ind[idx] = next(k for k, t in enumerate(moved[idx]) if sp.sympify(t) == out[idx])
+                if kwargs.get("keepdim", False):
+                    out, ind = np.expand_dims(out, ax), np.expand_dims(ind, ax)
+                return _ValuesIndices((out, ind))
+            if kwargs.get("keepdim", False):
+                out = np.expand_dims(out, ax)
             return out
         if name in ("size",):
             return tuple(x.shape) if not args else x.shape[self._int(args[0])]
@@ -1562,6 +1644,13 @@ class _Frame:
             return np.take_along_axis(x, args[1], axis=self._int(args[0]))
         if name == "__getitem__":
             return x[args[0]]
+        if name in ("matmul", "bmm", "mm") and len(args) == 1:
+            return np.matmul(x, args[0])
+        if name == "unique" and not args and not kwargs:
+            if x.dtype == object and not all(sp.sympify(t).is_number for t in x.flat):
+                raise AnalysisError("npsym: .unique() of symbolic data")
+            vals = sorted({(int(t) if x.dtype.kind in "iub" else sp.nsimplify(t)) for t in x.flat})
+            return np.array(vals, dtype=x.dtype if x.dtype.kind in "iu" else object)
         raise AnalysisError(f"npsym: tensor method `.{name}` in `{norm(e)[:60]}`")
 
 
